@@ -163,6 +163,16 @@ def run(tier, seed):
                 calls = [{"fn": "n1", "batch": leaves, "ignore": True, "catch": True}]
             else:
                 calls = [{"fn": "n1", "spec": lf, "ignore": not failing, "catch": True} for lf in leaves]
+            # resources (files a body declares it read): the record of a call lists the handles ITS body obtained, whatever
+            # was memoized before; here the first leaf and the root each obtain one
+            rdir = os.path.join(scratch, "resfiles")
+            os.makedirs(rdir, exist_ok=True)
+            rfiles = [os.path.join(rdir, "leaf%d.txt" % ii), os.path.join(rdir, "root%d.txt" % ii)]
+            for rf_ in rfiles:
+                with open(rf_, "w") as fh_:
+                    fh_.write("x")
+            leaves[0].setdefault("calls", []).append({"resource": rfiles[0]})
+            calls = calls + [{"resource": rfiles[1]}]
             rspec = {"id": base + 99, "calls": calls}
             want_inv = [base + k for k in range(nk)]
             want_deps = sorted(["n0", "n1", "n2"])
@@ -191,6 +201,10 @@ def run(tier, seed):
                         inv.append((kw.get("spec") or (x.args[0] if x.args else {})).get("id"))
                     deps = sorted({d.qualified_name.split(":")[-1].split("#")[0] for d in mm.function_dependencies})
                     meta["memento"] = {"invocations": inv, "deps": deps}
+                    got_res = sorted(os.path.basename(h.url) for h in (mm.invocation_metadata.resources or []))
+                    meta["memento"]["resources"] = got_res
+                    if got_res != [os.path.basename(rfiles[1])]:
+                        rep.violation("C10:resources-not-exact", "the root's record lists the resources %r; its body obtained %r" % (got_res, [os.path.basename(rfiles[1])]), meta)
                     if inv != want_inv:
                         rep.violation("C10:invocations-not-exact:ignore-result", "recorded invocations %r, the body made (with ignore_result) %r" % (inv, want_inv), meta)
                     if deps != want_deps:
